@@ -7,6 +7,7 @@ import (
 	"fmt"
 	"github.com/gobwas/ws"
 	"google.golang.org/grpc"
+	"google.golang.org/protobuf/reflect/protoregistry"
 	"io"
 	"math/rand"
 	"net"
@@ -113,7 +114,7 @@ func (b *scBuilt) close() {
 }
 
 // how the universe reaches the mux on the service-config side
-var c19Vias = []string{"", "conn", "conn-twice-drop-first", "conn-twice-drop-second", "conn-refresh"}
+var c19Vias = []string{"", "conn", "conn-twice-drop-first", "conn-twice-drop-second", "conn-refresh", "conn+unknown-to-gateway", "conn-twice-drop-first+unknown-to-gateway"}
 
 var c19seq int
 
@@ -172,6 +173,12 @@ func buildSCVia(perMethod map[int][]RuleSpec, cfg []CfgRule, via string) (*scBui
 	}
 	out := &scBuilt{rec: &Built{}}
 	opts := []larking.MuxOption{larking.FilesOption(reg)}
+	if strings.HasSuffix(via, "+unknown-to-gateway") {
+		// a pure proxy: the gateway's own file registry does not know the
+		// services, only the back-ends do
+		via = strings.TrimSuffix(via, "+unknown-to-gateway")
+		opts = []larking.MuxOption{larking.FilesOption(new(protoregistry.Files))}
+	}
 	if cfg != nil {
 		var rules []*annotations.HttpRule
 		for _, c := range cfg {
@@ -494,9 +501,12 @@ var healthzVariants = []struct {
 	// optFirst: ServiceConfigOption(sc) is created before AddHealthz(sc)
 	// completes the configuration (the option is applied by NewMux)
 	optFirst bool
+	// emptyFiles: the mux is built with FilesOption(empty registry)
+	emptyFiles bool
 }{
 	{name: "option-created-before-AddHealthz", optFirst: true},
 	{name: "health-on-backend", via: "conn"},
+	{name: "health-on-backend+empty-files-registry", via: "conn", emptyFiles: true},
 	{name: "health-on-two-backends-first-dropped", via: "conn-twice-drop-first"},
 	{name: "health-on-backend+own-check-rule", via: "conn", pre: []*annotations.HttpRule{{Selector: "grpc.health.v1.Health.Check", Pattern: &annotations.HttpRule_Get{Get: "/readyz"}}}, extra: "/readyz"},
 	{name: "empty"},
@@ -552,7 +562,11 @@ func healthzVariant(r *mon.Run, rng *rand.Rand, vi int) {
 	if scOpt == nil {
 		scOpt = larking.ServiceConfigOption(sc)
 	}
-	mux, err := larking.NewMux(scOpt)
+	mopts := []larking.MuxOption{scOpt}
+	if hv.emptyFiles {
+		mopts = append([]larking.MuxOption{larking.FilesOption(new(protoregistry.Files))}, mopts...)
+	}
+	mux, err := larking.NewMux(mopts...)
 	if err != nil {
 		r.Inconclusive("healthz mux: " + err.Error())
 		return
@@ -657,6 +671,11 @@ func healthzVariant(r *mon.Run, rng *rand.Rand, vi int) {
 	seq := []healthpb.HealthCheckResponse_ServingStatus{healthpb.HealthCheckResponse_SERVING, healthpb.HealthCheckResponse_NOT_SERVING, healthpb.HealthCheckResponse_SERVING}
 	for i, want := range seq {
 		if i > 0 {
+			// keep-alive frames a client may send at any time (RFC 6455
+			// 5.5.2/5.5.3) must not end the watch
+			wsutil.WriteClientMessage(conn, ws.OpPing, []byte("ka"))
+			wsutil.WriteClientMessage(conn, ws.OpPong, nil)
+			time.Sleep(20 * time.Millisecond)
 			hs.SetServingStatus("ws.svc", want)
 		}
 		msg, err := wsutil.ReadServerText(conn)
